@@ -333,6 +333,24 @@ func init() {
 		"sync/atomic.CompareAndSwapInt32": atomicCAS,
 		"sync/atomic.SwapInt64": atomicSwap,
 		"sync/atomic.SwapInt32": atomicSwap,
+		"slices.overlaps": func(ex *Exec, _ *frame, _ *ssa.Function, a []Value) (Value, bool) {
+			// the real body compares addresses; here: do the two windows share a cell?
+			x, y := a[0].([]Value), a[1].([]Value)
+			if len(x) == 0 || len(y) == 0 {
+				return false, true
+			}
+			for i := range y {
+				if &y[i] == &x[0] {
+					return true, true
+				}
+			}
+			for i := range x {
+				if &x[i] == &y[0] {
+					return true, true
+				}
+			}
+			return false, true
+		},
 		"crypto/rand.Read": func(ex *Exec, _ *frame, _ *ssa.Function, a []Value) (Value, bool) {
 			// entropy is never used by the checks (the counter's source is replaced): zeros
 			b := a[0].([]Value)
